@@ -283,19 +283,7 @@ def run(chk):
         exp = {'put_same': want, 'contains': want, 'constructor_rejects_as_duplicate': want, 'merge_same': want, 'merge_same_reversed': want,
                'remove_same': want}
         if got != exp:
-            # a listed finding is matched only by the exact deviation recorded for that key pair
-            T, F = True, False
-            KNOWN = {
-                ('true()', '1'): ('C15-key-boolean-integer', dict(put_same=T, contains=T, constructor_rejects_as_duplicate=T, merge_same=T, merge_same_reversed=T, remove_same=T)),
-                ('false()', '0'): ('C15-key-boolean-integer', dict(put_same=T, contains=T, constructor_rejects_as_duplicate=T, merge_same=T, merge_same_reversed=T, remove_same=T)),
-                ('1', 'true()'): ('C15-key-boolean-integer', dict(put_same=T, contains=T, constructor_rejects_as_duplicate=T, merge_same=T, merge_same_reversed=T, remove_same=T)),
-                ('0', 'false()'): ('C15-key-boolean-integer', dict(put_same=T, contains=T, constructor_rejects_as_duplicate=T, merge_same=T, merge_same_reversed=T, remove_same=T)),
-            }
-            kf = KNOWN.get((k1, k2))
-            if kf and got == kf[1]:
-                chk.known(kf[0], desc | {'impl': got})
-            else:
-                chk.violation('impl-vs-spec', desc, {'impl': got, 'spec': exp})
+            chk.violation('impl-vs-spec', desc, {'impl': got, 'spec': exp})
     # ---- typed keys: compare.same_key and map:put / remove / get / contains / size on maps keyed by every atomic family,
     #      against C15.Keys (same_key_impl = the code as written, same_key_spec = op:same-key)
     from elementpath.compare import same_key as impl_same_key
@@ -320,11 +308,7 @@ def run(chk):
         ("xs:gYearMonth('2000-01')", 'KOther 6 1'), ("xs:gMonthDay('--01-01')", 'KOther 7 1'), ("xs:gDay('---01')", 'KOther 8 1'),
         ("xs:gMonth('--01')", 'KOther 9 1'), ("xs:dateTime('2000-01-01T00:00:00Z')", 'KOther 2 2'), ("xs:dateTime('2000-01-01T01:00:00+01:00')", 'KOther 2 2'),
     ]
-    BOOLNUM = {'true()', 'false()'}
-    NUM01 = {'0', '1', '1.0', '1e0', '0e0', "xs:float('1')"}
 
-    def in_bool_region(exprs):
-        return bool(BOOLNUM & set(exprs)) and bool(NUM01 & set(exprs))
     kval = {}
     for e, _ in KEYS:
         try:
@@ -342,10 +326,7 @@ def run(chk):
         if got != mo[0]:
             chk.corr_fail.append((desc, got, mo[0]))
         if got != mo[1]:
-            if got == mo[0] and in_bool_region([a[0], b[0]]):
-                chk.known('C15-key-boolean-integer', desc | {'impl': got, 'spec': mo[1]})
-            else:
-                chk.violation('impl-vs-spec', desc, {'impl': got, 'spec': mo[1], 'model': mo[0]})
+            chk.violation('impl-vs-spec', desc, {'impl': got, 'spec': mo[1], 'model': mo[0]})
         chk.nontrivial.add(repr(('samekey', a[0], b[0])))
     # (b) operation sequences over typed keys
     tcases = []
@@ -388,6 +369,9 @@ def run(chk):
                 g2 = g2 if isinstance(g2, list) else [g2]
                 if g != g2:
                     chk.violation('impl-vs-spec', desc, {'key': k[0], 'map:get': repr(g), '$m($k)': repr(g2)})
+                nf = select(None, 'array:size(map:find($m, $k))', variables={'m': m, 'k': kval[k[0]]})
+                if nf != int(bool(c)):    # map:find on a flat map: one member per entry with the same key
+                    chk.violation('impl-vs-spec', desc, {'key': k[0], 'map:contains': c, 'array:size(map:find($m, $k))': nf})
                 got.append([int(bool(c))] + [int(x) for x in g])
             got.append([len(m)])
         except ElementPathError as e:
@@ -399,10 +383,7 @@ def run(chk):
         if got != mi:
             chk.corr_fail.append((desc, got, mi))
         if got != ms:
-            if got == mi and in_bool_region(used):
-                chk.known('C15-key-boolean-integer', desc | {'impl': got, 'spec': ms})
-            else:
-                chk.violation('impl-vs-spec', desc, {'impl': got, 'spec': ms, 'model': mi})
+            chk.violation('impl-vs-spec', desc, {'impl': got, 'spec': ms, 'model': mi})
         chk.nontrivial.add(repr(('tops', expr, tuple(k[0] for k in probes))))
     # (c) map:merge and the map constructor over typed keys
     spec_same = {(a[0], b[0]): bool(mo[1]) for (a, b), mo in zip(pairs, rel)}
@@ -455,16 +436,13 @@ def run(chk):
             chk.violation('impl-raised', desc, repr(e)[:300])
             continue
         mi, ms = [list(x) for x in mo[0]], [list(x) for x in mo[1]]
-        if not operand_ok and in_bool_region(used):
-            chk.known('C15-key-boolean-integer', desc | {'note': 'an operand map conflates a boolean and a numeric key'})
+        if not operand_ok:
+            chk.violation('impl-vs-spec', desc, {'note': 'an operand map built by map:put conflates two different keys'})
             continue
         if got != mi:
             chk.corr_fail.append((desc, got, mi))
         if got != ms:
-            if got == mi and in_bool_region(used):
-                chk.known('C15-key-boolean-integer', desc | {'impl': got, 'spec': ms})
-            else:
-                chk.violation('impl-vs-spec', desc, {'impl': got, 'spec': ms, 'model': mi})
+            chk.violation('impl-vs-spec', desc, {'impl': got, 'spec': ms, 'model': mi})
         chk.nontrivial.add(repr(('tmerge', p, repr(desc['maps']), tuple(desc['probes']))))
     chk.rule = ('seeded operation sequences map:put / map:remove on integer-keyed maps with every key probed through map:get, $m($k), $m?($k), '
                 'map:contains, map:size; map:merge over 1-4 maps x 4 duplicate policies; array functions over an index grid -1..6 and random '
